@@ -72,7 +72,7 @@ func gen(t *rapid.T) Case {
 		}
 		if c.Kind == "recv" {
 			g := vkit.GenGJ(t, vkit.GeomOpts{Types: []string{"MultiPoint", "LineString", "MultiLineString", "Polygon"},
-				MinMembers: 0, MaxMembers: 3, MaxPts: 5, Coord: hg})
+				MinMembers: 0, MaxMembers: 3, MaxPts: 5, Coord: hg, ExactGrid: true})
 			c.Recv = &g
 		}
 	case "float":
